@@ -127,6 +127,9 @@ var stmtYieldFiles = map[string]string{
 	"/p2p/network.go": "",
 	"/gmw/triples.go": "",
 	"/gmw/network.go": ".m.Lock()",
+	// the grow-and-copy helpers the triple pool's arrays go through: between the copy and the
+	// caller's installation of the new array another goroutine may still use the old one
+	"/gmw/bitvec.go": "make([]uint64",
 }
 
 var loopYieldFiles = map[string]bool{
